@@ -51,6 +51,45 @@ void ti_ahbm_push(TImpl* t, unsigned ch, u32 v) { t->ahbm.channels[ch].burst_que
 u64 ti_ahbm_qsize(TImpl* t, unsigned ch) { return t->ahbm.channels[ch].burst_queue.size(); }
 void ti_btdmp_push(TImpl* t, unsigned i, u16 v) { t->btdmp[i].transmit_queue.push(v); }
 u64 ti_btdmp_qsize(TImpl* t, unsigned i) { return t->btdmp[i].transmit_queue.size(); }
+// the public API of teakra.cpp (Teakra::Teakra is exactly one std::unique_ptr<Impl>): the real wrappers are called on a
+// one-pointer stand-in for the Teakra object so that they run on the Impl under test
+struct FakeTeakra { TImpl* impl; };
+static_assert(sizeof(::Teakra::Teakra) == sizeof(FakeTeakra), "Teakra::Teakra is expected to hold exactly the Impl pointer");
+#define TK(t) FakeTeakra f_{t}; ::Teakra::Teakra& k = *reinterpret_cast<::Teakra::Teakra*>(&f_)
+bool tf_senddataisempty(TImpl* t, u8 i) { TK(t); return k.SendDataIsEmpty(i); }
+void tf_senddata(TImpl* t, u8 i, u16 v) { TK(t); k.SendData(i, v); }
+bool tf_recvdataisready(TImpl* t, u8 i) { TK(t); return k.RecvDataIsReady(i); }
+u16 tf_recvdata(TImpl* t, u8 i) { TK(t); return k.RecvData(i); }
+u16 tf_peekrecvdata(TImpl* t, u8 i) { TK(t); return k.PeekRecvData(i); }
+void tf_setsemaphore(TImpl* t, u16 v) { TK(t); k.SetSemaphore(v); }
+u16 tf_getsemaphore(TImpl* t) { TK(t); return k.GetSemaphore(); }
+void tf_clearsemaphore(TImpl* t, u16 v) { TK(t); k.ClearSemaphore(v); }
+void tf_masksemaphore(TImpl* t, u16 v) { TK(t); k.MaskSemaphore(v); }
+u16 tf_pread(TImpl* t, u32 a) { TK(t); return k.ProgramRead(a); }
+void tf_pwrite(TImpl* t, u32 a, u16 v) { TK(t); k.ProgramWrite(a, v); }
+u16 tf_dread(TImpl* t, u16 a, bool b) { TK(t); return k.DataRead(a, b); }
+void tf_dwrite(TImpl* t, u16 a, u16 v, bool b) { TK(t); k.DataWrite(a, v, b); }
+u16 tf_dreada32(TImpl* t, u32 a) { TK(t); return k.DataReadA32(a); }
+void tf_dwritea32(TImpl* t, u32 a, u16 v) { TK(t); k.DataWriteA32(a, v); }
+u16 tf_mmioread(TImpl* t, u16 a) { TK(t); return k.MMIORead(a); }
+void tf_mmiowrite(TImpl* t, u16 a, u16 v) { TK(t); k.MMIOWrite(a, v); }
+u8* tf_getdspmemory(TImpl* t) { TK(t); return k.GetDspMemory(); }
+RegisterState* tf_getregs(TImpl* t) { TK(t); return &k.GetRegisterState(); }
+u16 tf_dmachan0srchigh(TImpl* t) { TK(t); return k.DMAChan0GetSrcHigh(); }
+u16 tf_dmachan0dsthigh(TImpl* t) { TK(t); return k.DMAChan0GetDstHigh(); }
+u16 tf_ahbmunitsize(TImpl* t, u16 i) { TK(t); return k.AHBMGetUnitSize(i); }
+u16 tf_ahbmdirection(TImpl* t, u16 i) { TK(t); return k.AHBMGetDirection(i); }
+u16 tf_ahbmdmachannel(TImpl* t, u16 i) { TK(t); return k.AHBMGetDmaChannel(i); }
+// what each wrapper is documented to do, written against the components directly
+u16 ts_pread(TImpl* t, u32 a) { return t->memory_interface.ProgramRead(a); }
+u16 ts_dreada32(TImpl* t, u32 a) { return t->memory_interface.DataReadA32(a); }
+void ts_dwritea32(TImpl* t, u32 a, u16 v) { t->memory_interface.DataWriteA32(a, v); }
+u8* ts_getdspmemory(TImpl* t) { return t->shared_memory.raw; }
+u16 ts_dmachan0srchigh(TImpl* t) { return t->dma.channels[0].addr_src_high; }
+u16 ts_dmachan0dsthigh(TImpl* t) { return t->dma.channels[0].addr_dst_high; }
+u16 ts_ahbmunitsize(TImpl* t, u16 i) { return (u16)t->ahbm.channels[i].unit_size; }
+u16 ts_ahbmdirection(TImpl* t, u16 i) { return (u16)t->ahbm.channels[i].direction; }
+u16 ts_ahbmdmachannel(TImpl* t, u16 i) { return t->ahbm.channels[i].dma_channel; }
 #ifdef NATIVE_TWIN
 TImpl* tn_new() { return new TImpl(nullptr); }
 // schedule replay: the k-th pthread_mutex_lock of the calling thread (counted from tn_set_hook) first runs a hook - the
